@@ -1,5 +1,7 @@
 """Per-property configuration of /verif/check."""
 
+COMMON_NOTE = "Trusted: Lean kernel, correspondence harness and its canonicalisation (errors reduced to classes). Modelled by hand: unmarshaler.go, warcfieldsparser.go, headerfielddef.go, record.go (parseBlock, ValidateDigest), block kinds as far as bytes and digests go, recordbuilder.go, marshaler.go, digest.go. External code as parameters: hash functions (abstract H in theorems; executable MD5/SHA-1/SHA-256/SHA-512 in the driver, validated against crypto/*), time.Parse, net.ParseIP, whatwg-url, net/http head parsing (verdict tables supplied with each case), bufio.Reader by contract. gzip members are not yet inside this model (file-level properties)."
+
 ALLOWED_AXIOMS = {"propext", "Classical.choice", "Quot.sound"}
 
 PROPS = {
@@ -55,6 +57,53 @@ PROPS = {
                    "the fixpoint oracle runs on the implementation for every generated section",
         level_note="Trusted: Lean kernel, correspondence harness. The universal round-trip theorem for clean fields (C19_api) is stated in DESIGN.md and proved in Props/C01 (header framing lemmas); here the "
                    "property is decided by witness + partial theorem + correspondence.",
+    ),
+    "C01": dict(
+        title="Write-then-read round trip is lossless",
+        lean_modules=["Gowarc.Props.C01"],
+        n_quick=3000, n_thorough=40000,
+        required_theorems=["C01_framing", "C01_version_line"],
+        model_assumptions=["see level_note; records with header values that have edge white space or contain '=?' are the listed findings C19-F17 / C19-F15"],
+        design_ref="DESIGN.md section 5, C01",
+        level_text="Executable model of build -> marshal -> unmarshal compared with the implementation on seeded records x builder options x parser options (incl. strict) x trailing bytes; "
+                   "round-trip oracle on the implementation (same version, type, ordered fields, block, no finding, identical re-serialisation, tail untouched); framing theorems "
+                   "(block cut by length, never scanned; version line; header lines) kernel-checked; full composition theorem in progress (see DESIGN.md)",
+        level_note=COMMON_NOTE,
+        known_from=["C19"],
+    ),
+    "C02": dict(
+        title="Built records carry truthful Content-Length, digests and record ids",
+        lean_modules=["Gowarc.Props.C02"],
+        n_quick=3000, n_thorough=40000,
+        required_theorems=["C02_added_digest", "C02_http_split", "C02_default_digest"],
+        model_assumptions=["record ids come from the configured id function; uniqueness of uuid.New is an assumption (randomness), only well-formedness is checked", "see level_note"],
+        design_ref="DESIGN.md section 5, C02",
+        level_text="Model of Build compared with the implementation on seeded builder inputs x 81 policy combinations x repair flags x algorithms x encodings; the oracle recomputes Content-Length and digests "
+                   "from the serialized bytes with crypto/* and re-runs every case with four other feeding manners and thresholds; theorems: the added digest is name:encode(H(alg, exactly the block / payload bytes)), "
+                   "head ++ payload = content, default algorithm/encoding, Set/Get law",
+        level_note=COMMON_NOTE,
+    ),
+    "C03": dict(
+        title="Length and digest verification is sound and complete",
+        lean_modules=["Gowarc.Props.C03"],
+        n_quick=3000, n_thorough=40000,
+        required_theorems=["hex_roundtrip", "validate_iff", "checkDigest_complete", "checkDigest_sound_warn", "checkDigest_sound_fail", "checkDigest_adds"],
+        model_assumptions=["distinct inputs generated by the harness have distinct digests (cryptographic hash)", "see level_note"],
+        design_ref="DESIGN.md section 5, C03",
+        level_text="Theorems for an arbitrary hash function: validate accepts exactly the values that decode to the hash; the per-field check never reports a correct value, always reports a wrong one (finding under warn, error under fail) "
+                   "and repairs to the true value; base16 round trip for all byte strings. Correspondence: full algorithm x encoding x case x hyphen grid, every one-character corruption, and records with generator-known truth about declared length/digests on parser and builder path",
+        level_note=COMMON_NOTE,
+    ),
+    "C05": dict(
+        title="The parser is total: no panic, no hang, bounded memory",
+        lean_modules=["Gowarc.Props.C05"],
+        n_quick=6000, n_thorough=80000,
+        required_theorems=["C05_readline_partition", "C05_readline_progress", "C05_http_split", "C05_junk", "C05_junk_consumes"],
+        model_assumptions=["heap growth and wall-clock are only measured (worker watchdog 10 s, address-space cap), not proved", "panics inside klauspost/gzip, net/http, mime, whatwg-url are outside the model", "see level_note"],
+        design_ref="DESIGN.md section 5, C05",
+        level_text="All model functions are total Lean functions (no partial step); progress and partition lemmas for the line reader, the HTTP head scan and the junk search are kernel-checked; "
+                   "the implementation is run on mutated/truncated/hostile records x option combinations x sticky reader faults in isolated worker processes (panic -> outcome, watchdog -> hang, memory cap) and every case is re-run under four chunking styles",
+        level_note=COMMON_NOTE,
     ),
 }
 
